@@ -6,8 +6,10 @@ from . import common as C
 RULE = ('storage histories (as C01/C04: deletes into closed blobs, manual close/restore/create, force_update, restarts '
         'with and without close) with `counts`, `disk` and a directory listing after every op; counters compared with '
         'the model and with the Coq spec_counts; disk_used compared with the sum of file sizes in the directory; '
+        'quarantine stream: restarts with some or all blob files unreadable, eager/lazy init: corrupted_blobs_count = files in the '
+        'corrupted directory, blobs_count = blob files in the work directory, next_blob_id above every id ever seen; '
         'distinct by (cfg line, multiset of (op, outcome class))')
-ASSUMPTIONS = ['memory estimates are not part of the property', 'quarantine accounting (corrupted_blobs_count after damage) is exercised by C06']
+ASSUMPTIONS = ['memory estimates are not part of the property']
 
 
 def gen(tier, rng):
@@ -22,7 +24,41 @@ def gen(tier, rng):
             if l.split()[0] not in ('cfg', 'close', 'drop'):
                 lines += ['counts', 'disk', 'ls']
         out.append(('acct%05d' % i, '\n'.join(lines) + '\n'))
+    for i in range(n // 4):
+        out.append(('quar%05d' % i, gen_quarantine_script(rng)))
     return out
+
+
+def gen_quarantine_script(rng):
+    """corrupted_blobs_count / blobs_count / next_blob_id across restarts in which some or ALL blob files are
+    unreadable (cut inside the header or the first record), eager and lazy init, with and without new data in between:
+    the counter must equal the number of blob files in the corrupted directory at every start."""
+    K = 4
+    L = ['cfg K=4 dup=1 group=2 bloom=none init=%s runtime=%s nomodel=1' % (rng.choice(['eager', 'lazy']), rng.choice(['mt', 'ct'])), 'open']
+    seed = 0
+    nb = rng.choice([1, 1, 2, 3])
+    for b in range(nb):
+        for _ in range(rng.randrange(1, 3)):
+            seed += 1
+            L.append('W %s 5 - %d %d' % ((seed % 5 + 1).to_bytes(K, 'big').hex(), rng.choice([5, 40]), seed))
+        if b < nb - 1:
+            L.append('close_active')
+    L += ['counts', 'ls', 'close']
+    ids = list(range(nb))
+    for rnd in range(rng.choice([1, 2, 2, 3])):
+        victims = ids if rng.random() < 0.5 else rng.sample(ids, rng.randrange(0, len(ids) + 1)) if ids else []
+        for v in victims:
+            L.append('trunc blob %d %s' % (v, rng.choice(['0', '10', '19', '25', '-3'])))
+        L.append('cfgnext init=%s' % rng.choice(['eager', 'lazy', 'lazy']))
+        L += ['open', 'counts', 'ls']
+        if rng.random() < 0.4:
+            seed += 1
+            L.append('W %s 6 - 5 %d' % ((seed % 5 + 1).to_bytes(K, 'big').hex(), seed))
+            L += ['counts', 'ls']
+        L.append('close')
+        ids = list(range(nb + rnd + 2))
+    L += ['cfgnext init=eager', 'open', 'counts', 'ls']
+    return '\n'.join(L) + '\n'
 
 
 def tagger(lines, io, i, want, got):
@@ -53,6 +89,22 @@ def tagger(lines, io, i, want, got):
 
 def oracle(lines, io, spec=None):
     fails = C.spec_oracle(lines, io, spec, ('counts',), tagger)
+    if 'nomodel=1' in lines[0]:
+        seen_ids = set()
+        for i, l in enumerate(lines):
+            if l == 'counts' and i + 1 < len(io) and lines[i + 1] == 'ls' and io[i].startswith('counts ') and io[i + 1].startswith('ls'):
+                c = dict(kv.split('=') for kv in io[i].split()[1:])
+                names = [x.rsplit(':', 1)[0] for x in io[i + 1].split()[1:]]
+                quar = [n for n in names if n.startswith('corrupted/') and n.endswith('.blob')]
+                work = [n for n in names if '/' not in n and n.endswith('.blob')]
+                for n in quar + work:
+                    seen_ids.add(int(n.split('.')[-2]))
+                if int(c['corrupted']) != len(quar):
+                    fails.append('line %d: corrupted_blobs_count = %s but %d blob files are in the corrupted directory (%s)' % (i, c['corrupted'], len(quar), io[i + 1][:160]))
+                if int(c['blobs']) != len(work):
+                    fails.append('line %d: blobs_count = %s but %d blob files are in the work directory' % (i, c['blobs'], len(work)))
+                if seen_ids and int(c['next']) <= max(seen_ids):
+                    fails.append('line %d: next_blob_id = %s is not above every id ever present (%d)' % (i, c['next'], max(seen_ids)))
     # disk_used = sum of the sizes of the blob and index files in the work dir
     for i, l in enumerate(lines):
         if l == 'disk' and i + 1 < len(io) and lines[i + 1] == 'ls' and io[i].startswith('disk ') and io[i + 1].startswith('ls'):
